@@ -33,13 +33,8 @@ def sizeLine (maxBody : Nat) (line : Bytes) : Option Nat :=
   match sizeDigits maxBody line 0 0 with
   | none => none
   | some (size, digits, rest) =>
-    let ws := rest.takeWhile isOWS
-    let after := rest.drop ws.length
     if digits = 0 then none
-    else
-      match after with
-      | c :: _ => if c = 59 then some size else none
-      | [] => if ws.isEmpty then some size else none
+    else if chunkExtOk rest then some size else none
 
 /-- the trailer-section loop after the last chunk: the message ends after the first EMPTY line -/
 def trailerEnd (data : Bytes) (pos : Nat) : Option Nat :=
